@@ -215,6 +215,35 @@ let codec_dec (rest : string) : string =
   | Bytes.Panic -> "PANIC"
   | Bytes.OutOfFuel -> "OUTOFFUEL"
 
+(* ---------- C06: frames ---------- *)
+let frame_xfer (rest : string) : string =
+  match words rest with
+  | [m; ch; single; first; mid; last; payload] ->
+      let p = { Transfer.p_single = bytes_of_hex single; p_first = bytes_of_hex first;
+                p_mid = bytes_of_hex mid; p_last = bytes_of_hex last } in
+      (match Transfer.wire_transfer (n_of_string m) (n_of_string ch) p (bytes_of_hex payload) with
+       | Some ws -> "OK " ^ hex_of_bytes (Stdlib.List.concat ws)
+       | None -> "NONE")
+  | _ -> failwith "xfer: bad case"
+
+let frame_other (rest : string) : string =
+  match words rest with
+  | [m; ch; perf] ->
+      (match Transfer.wire_other (n_of_string m) (n_of_string ch) (bytes_of_hex perf) with
+       | Some ws -> "OK " ^ hex_of_bytes (Stdlib.List.concat ws)
+       | None -> "NONE")
+  | _ -> failwith "other: bad case"
+
+let frame_ldf (rest : string) : string =
+  match words rest with
+  | [maxf; chunks] ->
+      let cs = Stdlib.List.map bytes_of_hex (Stdlib.String.split_on_char '|' chunks) in
+      let st0 = { LengthDelimited.ld_buf = []; ld_failed = false } in
+      let (_, frames) = LengthDelimited.ld_feed_all (n_of_string maxf) st0 cs in
+      Stdlib.String.concat " " (Stdlib.List.map (fun f -> "F " ^ hex_of_bytes f) frames)
+  | [maxf] -> ignore maxf; ""
+  | _ -> failwith "ldf: bad case"
+
 let dispatch (line : string) : string =
   match Stdlib.String.index_opt line ' ' with
   | None -> failwith "no model tag"
@@ -224,6 +253,9 @@ let dispatch (line : string) : string =
       (match tag with
        | "c07" -> c07 rest
        | "c08" -> c08 rest
+       | "xfer" -> frame_xfer rest
+       | "other" -> frame_other rest
+       | "ldf" -> frame_ldf rest
        | "enc" -> codec_enc rest
        | "dec" -> codec_dec rest
        | _ -> failwith ("unknown model " ^ tag))
